@@ -56,6 +56,21 @@ def random_src(rng, cnf=False, many_vars=False):
     return src
 
 
+def dense_src(rng):
+    """dense grammars, mostly binary rules (the start variable included in right-hand sides): sub-words are
+    derived by several variables through different split points"""
+    vs = "SABC"[: rng.choice([3, 4])]
+    rules = [(v, rng.choice("ab")) for v in vs if rng.random() < 0.8]
+    for _ in range(rng.randint(4, 8)):
+        rules.append((rng.choice(vs), rng.choice(vs) + rng.choice(vs)))
+    rules = list(dict.fromkeys(rules))
+    if not any(l == "S" for l, _ in rules):
+        rules.insert(0, ("S", "AB"))
+    i = next(i for i, (l, _) in enumerate(rules) if l == "S")
+    rules.insert(0, rules.pop(i))
+    return {"kind": "cfg_rules", "rules": [list(r) for r in rules]}
+
+
 def nondegenerate(G):
     """every variable derives a non-empty word (the domain of C13)"""
     from gambatools.cfg import Variable
